@@ -316,4 +316,131 @@ theorem getAllAllowedXgressConnsFromNetpols_eq (e : Engine) (src dst : KPeer) (i
       generalize @List.foldlM (Except Err) _ ConnSet NetPol _ (ConnSet.mk' false) (p :: ps) = r
       cases r <;> rfl
 
+-- ------------------------------------------------------------------------------------------
+-- the call chain of check.go, regenerated end to end
+
+/-- `getXgressDefaultConns` as the regenerated function of the engine's BANP (the two cases above in one term) -/
+def genDefaultConns (e : Engine) (src dst : KPeer) (isIngress : Bool) : Except Err PolicyConns :=
+  match e.banp with
+  | none => Gen.Procs.getXgressDefaultConns false isIngress (.ok false) (.ok false) (.ok PolicyConns.empty) (.ok PolicyConns.empty)
+  | some b => Gen.Procs.getXgressDefaultConns true isIngress (.ok (b.selects dst true)) (.ok (b.selects src false))
+      (adminPolicyConns b.ingress src dst true) (adminPolicyConns b.egress dst dst true)
+
+theorem genDefaultConns_eq (e : Engine) (src dst : KPeer) (isIngress : Bool) :
+    e.defaultConns src dst isIngress = genDefaultConns e src dst isIngress := by
+  unfold genDefaultConns
+  cases h : e.banp with
+  | none => exact getXgressDefaultConns_none e src dst isIngress h _ _ _ _
+  | some b => exact getXgressDefaultConns_some e src dst isIngress b h
+
+/-- one direction, every function of check.go on the way regenerated from the source: only the rule-level leaves
+(`Selects`, `Get{In,E}gressPolicyConns`, `getPoliciesSelectingPod`, the per-policy allowed connections) are the model's -/
+def genXgress (e : Engine) (src dst : KPeer) (isIngress : Bool) : Except Err ConnSet :=
+  Gen.Procs.allAllowedXgressConnections
+    (Gen.Procs.getAllAllowedXgressConnectionsFromANPs e.anps src dst isIngress)
+    (Gen.Procs.getAllAllowedXgressConnsFromNetpols (.ok (e.policiesSelecting dst .ingress)) (.ok (e.policiesSelecting src .egress)) src dst isIngress)
+    (genDefaultConns e src dst isIngress)
+
+theorem xgressConns_regenerated (e : Engine) (src dst : KPeer) (isIngress : Bool) :
+    e.xgressConns src dst isIngress = genXgress e src dst isIngress := by
+  rw [allAllowedXgressConnections_eq, getAllAllowedXgressConnectionsFromANPs_eq, getAllAllowedXgressConnsFromNetpols_eq, genDefaultConns_eq]
+  rfl
+
+/-- `allAllowedConnectionsBetweenPeers` with both directions regenerated: the connection set the report holds for a pair of
+peers is the composition of the regenerated functions of check.go over the model's rule-level leaves -/
+theorem peerConns_regenerated (e : Engine) (src dst : KPeer) :
+    e.peerConns src dst =
+      Gen.Procs.allAllowedConnectionsBetweenPeers (Engine.isPodToItself src dst) false false
+        (genXgress e src dst false) (genXgress e src dst true) := by
+  rw [allAllowedConnectionsBetweenPeers_eq, xgressConns_regenerated, xgressConns_regenerated]
+
+-- ------------------------------------------------------------------------------------------
+-- first-match loops: a Go loop whose body returns a value or goes on with the next element is a structural recursion
+
+theorem byANPs_loop (src dst : KPeer) (isIngress : Bool) (proto port : String) (anps l : List ANP) :
+    byANPs.go src dst isIngress proto port l =
+      Gen.Procs.allowedXgressConnectionByAdminNetpols_loop1 src dst isIngress proto port anps l := by
+  induction l with
+  | nil => rfl
+  | cons a rest ih =>
+    unfold byANPs.go Gen.Procs.allowedXgressConnectionByAdminNetpols_loop1
+    rw [ih]
+    cases isIngress
+    · cases hs : a.selects src false
+      · simp [hs, bind, Except.bind, pure, Except.pure]
+      · cases hc : adminCheck a.egress dst dst proto port false with
+        | error err => simp [hs, hc, bind, Except.bind, pure, Except.pure]
+        | ok r => cases r <;> simp [hs, hc, bind, Except.bind, pure, Except.pure] <;> rfl
+    · cases hs : a.selects dst true
+      · simp [hs, bind, Except.bind, pure, Except.pure]
+      · cases hc : adminCheck a.ingress src dst proto port false with
+        | error err => simp [hs, hc, bind, Except.bind, pure, Except.pure]
+        | ok r => cases r <;> simp [hs, hc, bind, Except.bind, pure, Except.pure] <;> rfl
+
+/-- `allowedXgressConnectionByAdminNetpols`: the first admin policy (in priority order) that selects the pod and captures the
+connection decides; Pass and "no policy captured" hand over to the next layer -/
+theorem allowedXgressConnectionByAdminNetpols_eq (e : Engine) (src dst : KPeer) (isIngress : Bool) (proto port : String) :
+    byANPs e src dst isIngress proto port =
+      Gen.Procs.allowedXgressConnectionByAdminNetpols src dst isIngress proto port e.anps := by
+  unfold byANPs Gen.Procs.allowedXgressConnectionByAdminNetpols
+  rw [byANPs_loop src dst isIngress proto port e.anps e.anps]
+
+theorem byNetpols_loop (a b : Except Err (List NetPol)) (src dst : KPeer) (isIngress : Bool) (proto port : String) (l : List NetPol) :
+    byNetpols.go src dst isIngress proto port l =
+      Gen.Procs.allowedXgressConnectionByNetpols_loop1 a b src dst isIngress proto port l := by
+  induction l with
+  | nil => rfl
+  | cons p rest ih =>
+    unfold byNetpols.go Gen.Procs.allowedXgressConnectionByNetpols_loop1
+    rw [ih]
+
+/-- `allowedXgressConnectionByNetpols`: not captured when no policy selects the pod; otherwise the first policy (in name
+order) with a rule that admits the connection -/
+theorem allowedXgressConnectionByNetpols_eq (e : Engine) (src dst : KPeer) (isIngress : Bool) (proto port : String) :
+    byNetpols e src dst isIngress proto port =
+      Gen.Procs.allowedXgressConnectionByNetpols (.ok (e.policiesSelecting dst .ingress)) (.ok (e.policiesSelecting src .egress))
+        src dst isIngress proto port := by
+  unfold byNetpols Gen.Procs.allowedXgressConnectionByNetpols
+  cases isIngress
+  · cases hp : e.policiesSelecting src .egress with
+    | nil => simp [hp, bind, Except.bind, pure, Except.pure]
+    | cons p ps =>
+      simp only [hp, ↓reduceIte, List.isEmpty_cons, Bool.false_eq_true, if_false, bind, Except.bind, pure, Except.pure, List.length_cons]
+      rw [byNetpols_loop (.ok (e.policiesSelecting dst .ingress)) (.ok (p :: ps))]
+      have hl : (ps.length + 1 == 0) = false := by simp
+      simp only [hl, Bool.false_eq_true, if_false]
+  · cases hp : e.policiesSelecting dst .ingress with
+    | nil => simp [hp, bind, Except.bind, pure, Except.pure]
+    | cons p ps =>
+      simp only [hp, ↓reduceIte, List.isEmpty_cons, Bool.false_eq_true, if_false, bind, Except.bind, pure, Except.pure, List.length_cons]
+      rw [byNetpols_loop (.ok (p :: ps)) (.ok (e.policiesSelecting src .egress))]
+      have hl : (ps.length + 1 == 0) = false := by simp
+      simp only [hl, Bool.false_eq_true, if_false]
+
+/-- `allowedXgressByBaselineAdminNetpolOrByDefault` as the regenerated function of the engine's BANP -/
+def genByBANP (e : Engine) (src dst : KPeer) (isIngress : Bool) (proto port : String) : Except Err Bool :=
+  match e.banp with
+  | none => Gen.Procs.allowedXgressByBaselineAdminNetpolOrByDefault false isIngress (.ok false) (.ok false) (.ok true) (.ok true)
+  | some b => Gen.Procs.allowedXgressByBaselineAdminNetpolOrByDefault true isIngress (.ok (b.selects dst true)) (.ok (b.selects src false))
+      (banpVerdict (adminCheck b.ingress src dst proto port true)) (banpVerdict (adminCheck b.egress dst dst proto port true))
+
+theorem genByBANP_eq (e : Engine) (src dst : KPeer) (isIngress : Bool) (proto port : String) :
+    byBANP e src dst isIngress proto port = genByBANP e src dst isIngress proto port := by
+  unfold genByBANP
+  cases h : e.banp with
+  | none => exact byBANP_none e src dst isIngress proto port h _ _ _ _
+  | some b => exact byBANP_some e src dst isIngress proto port b h
+
+/-- the rule-walking verdict of one direction (`eval` / `CheckIfAllowed`), every function of check_eval.go on the way regenerated
+from the source: admin policies in priority order with the first capturing rule, then the NetworkPolicies in name order, then
+the baseline policy or the default; the leaves are the rule-level functions of the model -/
+theorem xgress_regenerated (s : EState) (src dst : KPeer) (isIngress : Bool) (proto port : String) :
+    xgress s src dst isIngress proto port =
+      Gen.Procs.allowedXgressConnection
+        (Gen.Procs.allowedXgressConnectionByAdminNetpols src dst isIngress proto port s.eng.anps)
+        (Gen.Procs.allowedXgressConnectionByNetpols (.ok (s.eng.policiesSelecting dst .ingress)) (.ok (s.eng.policiesSelecting src .egress))
+          src dst isIngress proto port)
+        (genByBANP s.eng src dst isIngress proto port) := by
+  rw [allowedXgressConnection_eq, allowedXgressConnectionByAdminNetpols_eq, allowedXgressConnectionByNetpols_eq, genByBANP_eq]
+
 end Netpol.Tie.Procs
